@@ -215,8 +215,6 @@ PARSED_RECORDS = ('LZIPHeader', 'LZIPTrailer', 'StreamHeader', 'BlockHeader', 'I
 # (ADT, field) -> reason: parsed but deliberately not verified
 GUARD_EXCEPTIONS = {
     ('StreamFooter', 'backward_size'): 'redundant description of the index size; the index itself is CRC-protected and parsed forward',
-    ('BlockHeader', 'compressed_size'): 'optional redundant size; content covered by the block check',
-    ('BlockHeader', 'uncompressed_size'): 'optional redundant size; content covered by the block check',
     ('Index', 'records'): 'container of IndexRecord (see its fields)',
 }
 
@@ -234,6 +232,25 @@ def _err_edge(f, s):
             for st in f.blocks[b]['stmts']:
                 if st['k'] == 'assign' and st['lhs']['l'] == 0 and st['rv']['r'] == 'agg' and st['rv'].get('variant_name') == 'Err':
                     return True
+    return False
+
+
+def _straight_to_err(f, sb):
+    """One edge of switch sb leads, through blocks with a single successor (an `a || b` chain shares the block), to `_0 = Err(..)`."""
+    e = switch_edges(f, sb)
+    if e is None:
+        return False
+    for tgt in e:
+        b = tgt
+        for _ in range(5):
+            blk = f.blocks[b]
+            if any(st['k'] == 'assign' and st['lhs']['l'] == 0 and not st['lhs']['p'] and st['rv']['r'] == 'agg' and st['rv'].get('variant_name') == 'Err'
+                   for st in blk['stmts']):
+                return True
+            nx = [x for x in f.succs(b)]
+            if len(nx) != 1:
+                break
+            b = nx[0]
     return False
 
 
@@ -304,6 +321,43 @@ def guard_compare(ctx):
                     ctx.violation(key, adt['span'], 'the index record field %s is parsed but never compared with the size of the block that '
                                   'was actually decoded: two whole blocks of a multi-block file can be swapped (or a block replaced by another '
                                   'valid block) and the file still decodes "successfully" to different data' % name)
+                continue
+            if an == 'BlockHeader' and name in ('compressed_size', 'uncompressed_size') and not compared:
+                # a declared size is honoured only if the reader compares it with what it measured. The header value is kept in a
+                # field of the reader (a tuple component); that component has to reach a branch with an Err edge in the reader.
+                slot = None
+                for f in F.fns:
+                    if not (f.self_adt and last_seg(f.self_adt) == 'XZReader'):
+                        continue
+                    prov = Prov(f)
+                    for bi, b in enumerate(f.blocks):
+                        for si, st in enumerate(b['stmts']):
+                            if st['k'] == 'assign' and st['lhs']['l'] == 1 and st['lhs']['p'] and st['rv']['r'] == 'agg' and st['rv'].get('kind') == 'tuple':
+                                for oi, o in enumerate(st['rv']['ops']):
+                                    e = prov.operand(o, 0, '%d:%d' % (bi, si))
+                                    if any(x[0] == 'field' and x[2] == name and len(x) > 3 and x[3] == an for x in expr_walk(e)):
+                                        from lzlint.core import field_path as _fp
+                                        slot = (_fp(st['lhs'])[0], str(oi))
+                decided = None
+                if slot:
+                    for f in F.fns:
+                        if not (f.self_adt and last_seg(f.self_adt) == 'XZReader'):
+                            continue
+                        prov = Prov(f)
+                        for sb in f.reachable:
+                            t = f.blocks[sb]['term']
+                            if t['k'] != 'switch':
+                                continue
+                            cond = prov.operand(t['discr'], 0, '%d:T' % sb)
+                            hit = any(x[0] == 'field' and x[2] == slot[1] and x[1][0] == 'field' and x[1][2] == slot[0] for x in expr_walk(cond))
+                            if hit and (_err_edge(f, sb) or _straight_to_err(f, sb)):
+                                decided = (f, sb)
+                if decided:
+                    ctx.ok(key, decided[0].loc(decided[1]), 'kept in XZReader.%s.%s and compared there; the failing edge returns Err' % slot)
+                else:
+                    ctx.violation(key, adt['span'], 'the block header field %s is parsed%s but never decides an error in the reader: a block whose '
+                                  'header declares a different size than the block has decodes with Ok (liblzma rejects the file)' % (
+                                      name, ' and kept in XZReader.%s.%s' % slot if slot else ''))
                 continue
             ms = measured.get(key, [])
             ops = {m[0] for m in ms}
